@@ -502,9 +502,24 @@ def ww_struct(ctx, block):
 
 @family
 def svi(ctx, block):
-    """Tolerance: inputs are dyadic (exact in both dtypes); k-m exact; the square, the sum with sigma^2, the
-    correctly rounded sqrt, rho (k-m), the inner sum, the product with b and the sum with a round once each:
-    |err| <= 4 eps * (|a| + |b| (|rho (k-m)| + sqrt(.)))  =: 4 eps mag; used with a factor 2."""
+    """Tolerance: the reference takes the parameter values as the exact doubles they are (dyadic alphabet:
+    exact in both dtypes; non-dyadic alphabet: float64 only).  k-m, the two squares, their sum, the correctly
+    rounded sqrt, rho (k-m), the inner sum, the product with b and the sum with a round once each (<= eps/2 of
+    a term bounded by mag = |a| + |b| (|rho (k-m)| + sqrt(.))):  |err| <= 4.5 eps mag; used as 8 eps mag, i.e.
+    a few ulp of the output dtype - a parameter that went through float32 on its way shows as ~1e-8.
+    ``default_dtype`` runs the block under that global default dtype (restored afterwards)."""
+    want = block.get("default_dtype")
+    if want is None:
+        return _svi(ctx, block)
+    before = torch.get_default_dtype()
+    torch.set_default_dtype(DT[want])
+    try:
+        return _svi(ctx, block)
+    finally:
+        torch.set_default_dtype(before)
+
+
+def _svi(ctx, block):
     import pfhedge.nn.functional as F
     from pfhedge.nn import SVIVariance
     form = block["form"]
@@ -555,11 +570,15 @@ def svi(ctx, block):
         if o != o or abs(mp.mpf(o) - e) > tol:
             wing = "k=m" if c[0] == c[4] else ("k<m" if c[0] < c[4] else "k>m")
             sg = "sigma>0" if c[5] > 0 else ("sigma=0" if c[5] == 0 else "sigma<0")
-            ctx.violation(site, f"{form}:{wing}:{'rho=0' if c[3] == 0 else 'rho!=0'}:{sg}",
+            f32ok = all(float(torch.tensor(v, dtype=torch.float32)) == v for v in c[1:])
+            ctx.violation(site, f"{form}:{wing}:{'rho=0' if c[3] == 0 else 'rho!=0'}:{sg}"
+                          + ("" if f32ok else ":params_not_float32_representable")
+                          + (f":default_{block['default_dtype']}" if block.get("default_dtype") else ""),
                           f"svi variance at k={c[0]}, a={c[1]}, b={c[2]}, rho={c[3]}, m={c[4]}, sigma={c[5]}: {o!r}",
                           observed=o, expected=float(e),
-                          block={"form": form, "dtype": block["dtype"], "cases": [list(c)]})
-    ctx.outcome((form, block["dtype"], round(sum(o for _, o, _ in results), 9)))
+                          block={"form": form, "dtype": block["dtype"], "cases": [list(c)],
+                                 "default_dtype": block.get("default_dtype")})
+    ctx.outcome((form, block["dtype"], block.get("default_dtype"), round(sum(o for _, o, _ in results), 9)))
     if len(ctx.samples) < 5 and form == "module" and len(cases) > 10:
         c, o, _ = results[len(results) // 2 + 1]
         ctx.sample({"family": "svi", "k,a,b,rho,m,sigma": list(c), "module_output": o,
@@ -843,6 +862,16 @@ def run(ctx):
             if form == "fn_scalar_input" and dtype == "float32":
                 continue
             ctx.run("svi", dict(svi_alpha, form=form, dtype=dtype))
+    # non-dyadic python-float parameters (not representable in float32), float64 inputs, both global default dtypes
+    nd = {"k": [-0.35, 0.0, 0.1, 0.45], "a": [0.1, 1 / 3], "b": [0.3, 0.7], "rho": [0.3, -0.7], "m": [0.1, 1 / 3],
+          "sigma": [0.1, 0.3, 0.7, 1 / 3]}
+    if ctx.thorough:
+        for name in ("a", "b", "rho", "m"):
+            nd[name] = sorted(set(nd[name] + [0.1, 0.3, 0.7, 1 / 3]))
+    ctx.alphabet("svi non-dyadic (float64)", nd)
+    for form in ("fn_float", "fn_tensor", "module", "module_tensor_params", "fn_scalar_input"):
+        for default in ("float32", "float64"):
+            ctx.run("svi", dict(nd, form=form, dtype="float64", default_dtype=default))
     # ---------------- bilerp
     xs = [-1.0, 0.0, 0.5, 2.0]
     ws = [0.0, 0.25, 0.5, 1.0, 1.5]
